@@ -22,6 +22,7 @@ type ClCall struct {
 type ClInput struct {
 	Cond  bool     `json:"cond"`
 	Kind  string   `json:"kind"`
+	Opts  int      `json:"opts,omitempty"` // presentation options set on the receiver: 1 paren, 4 no-padding, 64 an encapsulation pair
 	Calls []ClCall `json:"calls"`
 }
 
@@ -41,6 +42,27 @@ func runClosures(raw json.RawMessage) (res *Result, err error) {
 	} else {
 		s = newStack(in.Kind, -1).Push("a", "b")
 		other = s
+	}
+	if in.Opts&1 != 0 {
+		if in.Cond {
+			c.SetParen(true)
+		} else {
+			s.SetParen(true)
+		}
+	}
+	if in.Opts&4 != 0 {
+		if in.Cond {
+			c.SetNoPadding(true)
+		} else {
+			s.SetNoPadding(true)
+		}
+	}
+	if in.Opts&64 != 0 {
+		if in.Cond {
+			c.SetEncap(`"`)
+		} else {
+			s.SetEncap(`"`)
+		}
 	}
 	oddErr := func(f int) error {
 		if f%2 != 0 {
@@ -151,7 +173,7 @@ func runClosures(raw json.RawMessage) (res *Result, err error) {
 				switch {
 				case str == "":
 					ob = "OEmpty"
-				case func() bool { _, err := fmt.Sscanf(str, "MARK%d", &m); return err == nil }():
+				case func() bool { _, err := fmt.Sscanf(str, "MARK%d", &m); return err == nil && str == marker(m) }():
 					ob = fmt.Sprintf("(OMark %d%%N false)", m)
 				default:
 					ob = "OBuiltin"
@@ -266,7 +288,9 @@ func genClosures(ctx *Ctx, emit func(any, string)) {
 				}
 				calls = append(calls, ClCall{Op: "set", Slot: sl, F: -1})
 				calls = append(calls, observers(cond)...)
-				emit(ClInput{Cond: cond, Kind: k, Calls: calls}, "exhaustive")
+				for _, opts := range []int{0, 1, 5, 64} {
+					emit(ClInput{Cond: cond, Kind: k, Opts: opts, Calls: calls}, "exhaustive")
+				}
 			}
 		}
 	}
@@ -274,7 +298,7 @@ func genClosures(ctx *Ctx, emit func(any, string)) {
 	for i := 0; i < n; i++ {
 		r := ctx.Rng.Fork()
 		cond := r.Pct(35)
-		in := ClInput{Cond: cond}
+		in := ClInput{Cond: cond, Opts: []int{0, 0, 1, 4, 5, 64, 65}[r.Intn(7)]}
 		if !cond {
 			in.Kind = kinds[r.Intn(5)]
 		}
